@@ -329,7 +329,7 @@ func execC07(x *X) {
 	}
 	// byte-for-byte against the reference, and idempotence
 	if ref, ok := refCanon(tree); ok && !bytes.Equal(ref, whole) {
-		x.Violate("reference-mismatch:"+FirstDiff(ref, whole), "canonical form of %s differs from the reference canonicaliser written from the specification; %s\n  got  %s\n  want %s", t.name, DiffDetail(ref, whole), trunc(string(whole), 300), trunc(string(ref), 300))
+		x.Violate("reference-mismatch:"+GDiff(ref, whole), "canonical form of %s differs from the reference canonicaliser written from the specification; %s\n  got  %s\n  want %s", t.name, DiffDetail(ref, whole), trunc(string(whole), 300), trunc(string(ref), 300))
 		return
 	}
 	if again, err, p := canonVia(NewSimReader(nil, "again", whole)); p != "" || err != nil || !bytes.Equal(again, whole) {
